@@ -450,7 +450,7 @@ NSHARD = 16
 def plan(tier):
     specs = [{'kind': 'chains', 'shard': i, 'k3_fraction': 0.12 if tier == 'quick' else 1.0} for i in range(NSHARD)]
     specs += [{'kind': 'literals', 'shard': 50}]
-    n = 40 if tier == 'quick' else 250
+    n = 40 if tier == 'quick' else 900
     specs += [{'kind': 'hyp', 'shard': 100 + i, 'examples': n} for i in range(NSHARD)]
     return specs
 
